@@ -1501,12 +1501,13 @@ def main(tier, seed, replay=None):
         return out.finish()
 
     # 1. design spec: exhaustive; every Bug_* configuration must be refuted (vacuity guard)
-    cfgs = ['MC_TocCache_quick.cfg'] if quick else ['MC_TocCache_thorough.cfg', 'MC_TocCache_thorough_empty.cfg']
+    cfgs = ['MC_TocCache_quick.cfg'] if quick else ['MC_TocCache_thorough.cfg', 'MC_TocCache_thorough_empty.cfg',
+                                                    'MC_TocCache_thorough_empty2.cfg']
     for cfg in cfgs:
-        r = tlc.check('MC_TocCache.tla', cfg, coverage=not quick, timeout=3000, workers=TLC_WORKERS)
+        r = tlc.check('MC_TocCache.tla', cfg, coverage=not quick, timeout=3000, workers=TLC_WORKERS, heap='4g')
         out.add_tlc(cfg, r)
     for b in ('suffix', 'partial', 'escape', 'toctou', 'rowrite', 'dropfield'):
-        rb = tlc.expect_violation('MC_TocCache.tla', 'MC_TocCache_bug_%s.cfg' % b, timeout=900, workers=TLC_WORKERS)
+        rb = tlc.expect_violation('MC_TocCache.tla', 'MC_TocCache_bug_%s.cfg' % b, timeout=900, workers=TLC_WORKERS, heap='2g')
         out.sensitivity['spec:Bug=' + b] = 'refuted (%s) after %d states' % (rb.violated, rb.distinct)
 
     # 2. spec -> code: TLC behaviours of the design spec driven through the real code
